@@ -652,7 +652,7 @@ def obligations(tier: str, known: List[str]) -> List[Ob]:
         obs.append(Ob("a.vlq.dec-enc[len=%d]" % L, C_A, "vlq_decenc", {"L": L}, timeout=120))
     obs.append(twin_of(obs[1]))
     obs.append(twin_of(obs[-2]))
-    for (lo, hi) in ((0, 35), (35, 70), (70, 100), (100, 132)) + (((132, 165), (165, 200), (8185, 8200), (16380, 16390)) if thorough else ()):
+    for (lo, hi) in ((0, 35), (35, 70), (70, 100), (100, 132)) + (((132, 165), (165, 200), (200, 260)) if thorough else ()):
         obs.append(Ob("a.list-length-prefix[%d<=n<%d]" % (lo, hi), C_A + "; " + C_B, "list_prefix", {"lo": lo, "hi": hi}, timeout=600))
     # b. consensus objects, fields symbolic
     ser, dt, sg, ms, H, mk = _env(True)
